@@ -44,35 +44,35 @@ func isAPIPkg(path string) bool {
 
 // Module fields that may legitimately be nil (N2). Key: "pkgShort.Type.Field".
 var n2Fields = map[string]string{
-	"netpol/eval.PolicyEngine.baselineAdminNetpol":                    "nil until a BaselineAdminNetworkPolicy is inserted, and after its deletion",
-	"netpol/eval.evalCache.cache":                                    "nil when the lru cache could not be created",
-	"netpol/eval/internal/k8s.PodPeer.NamespaceObject":               "nil for representative peers",
-	"netpol/eval/internal/k8s.Pod.RepresentativePodLabelSelector":    "nil for real pods and for 'any pod' representatives",
-	"netpol/eval/internal/k8s.Pod.RepresentativeNsLabelSelector":     "nil for real pods",
-	"manifests/parser.K8sObject.*":                                   "only the field matching Kind is set (discharged by the kind tables, E6)",
+	"netpol/eval.PolicyEngine.baselineAdminNetpol":                "nil until a BaselineAdminNetworkPolicy is inserted, and after its deletion",
+	"netpol/eval.evalCache.cache":                                 "nil when the lru cache could not be created",
+	"netpol/eval/internal/k8s.PodPeer.NamespaceObject":            "nil for representative peers",
+	"netpol/eval/internal/k8s.Pod.RepresentativePodLabelSelector": "nil for real pods and for 'any pod' representatives",
+	"netpol/eval/internal/k8s.Pod.RepresentativeNsLabelSelector":  "nil for real pods",
+	"manifests/parser.K8sObject.*":                                "only the field matching Kind is set (discharged by the kind tables, E6)",
 }
 
 // Reasoned exceptions: construct -> reason (one named construct each).
 var e2Exceptions = map[string]string{
-	"netpol/eval/internal/k8s.ruleConnections: deref of dst.GetPeerPod() [N3]":                          "reached only through updatePolicyConns after egressRuleSelectsPeer/ingressRuleSelectsPeer matched a Namespaces/Pods peer, which never match an IP block (C02-d), so dst is a pod; ANP named ports on IP destinations cannot occur",
-	"netpol/eval/internal/k8s.anpPortContains: deref of dst.GetPeerPod() [N3]":                          "same invariant as ruleConnections: the rule's peer matched dst before the ports are examined, and admin-policy peers never match IP blocks",
-	"netpol/eval.updatePeerXgressClusterWideExposure: deref of dst.GetPeerPod() [N3]":                   "called with the policy that selected dst for ingress; NetworkPolicies select only pods (getPoliciesSelectingPod returns none for an IP block)",
-	"netpol/eval.updatePeerXgressClusterWideExposure: deref of src.GetPeerPod() [N3]":                   "called with the policy that selected src for egress; NetworkPolicies select only pods",
-	"netpol/eval/internal/k8s.doesNamespacesFieldMatchPeer: deref of peer.GetPeerNamespace() [N3]":      "peer is a pod here (IP test above); namespace objects are attached by getPeer/convertPeerToPodPeer for every real pod, and representative peers (nil namespace) never meet admin policies because exposure analysis rejects admin policies at insertion",
-	"netpol/eval/internal/k8s.doesPodsFieldMatchPeer: deref of peer.GetPeerNamespace() [N3]":            "same as doesNamespacesFieldMatchPeer",
-	"netpol/eval.(*PolicyEngine).removeRedundantRepresentativePeers: deref of pe.namespacesMap[podObj.Namespace] [N5]": "the namespace was inserted by the resolveSingleMissingNamespace call that precedes the lookup in the same function (its error is returned before)",
-	"netpol/eval.(*PolicyEngine).removeRepresentativePeersMatchingLabels: deref of netpol/eval/internal/k8s.Pod.RepresentativeNsLabelSelector [N2]": "entries of representativePeersMap are created only by addRepresentativePod, which stores a non-nil namespace selector (nil with an empty namespace is an error return, nil with a namespace is replaced by the name-label selector)",
-	"netpol/eval.(*evalCache).deleteWorkload: deref of netpol/eval.evalCache.cache [N2]":                                                    "cache is nil only when lru.New fails, which it does only for size <= 0; newEvalCacheWithSize clamps the size to [10,10000]. Not reachable by any input",
-	"netpol/internal/common.(*ConnectionSet).ReplaceNamedPortWithMatchingPortNum: deref of protocolPortSet (alias of conn.AllowedProtocols[protocol] [N5]) [N4]": "called only from checkAndConvertNamedPortsInConnection with protocols that are keys of GetNamedPorts() of the very set the copy was made from, so the protocol is present",
-	"netpol/connlist.(*exposureMaps).appendPeerXgressExposureData: deref of ex.ingressExposureMap[peer] [N5]":                               "every call is dominated by addNewEntry(peer, _, isIngress) on the same peer and direction in the calling function (checked by rule E2-N5-pre)",
-	"netpol/connlist.(*exposureMaps).appendPeerXgressExposureData: deref of ex.egressExposureMap[peer] [N5]":                                "every call is dominated by addNewEntry(peer, _, isIngress) on the same peer and direction in the calling function (checked by rule E2-N5-pre)",
-	"netpol/eval.(*PolicyEngine).GetSelectedPeers: assertion peer.(*k8s.WorkloadPeer) [N7]":                                                 "peer ranges over the values of createPodOwnersMap, which stores only &k8s.WorkloadPeer{} (its single store, checked by rule E2-N7-store)",
-	"netpol/eval.(*PolicyEngine).allAllowedConnectionsBetweenPeers: assertion srcPeer.(k8s.Peer) [N7]":                                     "callers pass only *k8s.PodPeer (converted) or IP peers under IsPeerIPType (checked by rule E2-N7-callers)",
-	"netpol/eval.(*PolicyEngine).allAllowedConnectionsBetweenPeers: assertion dstPeer.(k8s.Peer) [N7]":                                     "callers pass only *k8s.PodPeer (converted) or IP peers under IsPeerIPType (checked by rule E2-N7-callers)",
-	"netpol/diff.(mapListConnPairs).mergeBySrcOrDstIPPeers: constant index srcOrdstIPgroup[0] [N8]":                                        "srcOrdstIPgroup ranges over the values of a map whose entries are created only by append of one element (diffMap.update / addConnsPair), hence non-empty",
+	"netpol/eval/internal/k8s.ruleConnections: deref of dst.GetPeerPod() [N3]":                                                                                                                                                                "reached only through updatePolicyConns after egressRuleSelectsPeer/ingressRuleSelectsPeer matched a Namespaces/Pods peer, which never match an IP block (C02-d), so dst is a pod; ANP named ports on IP destinations cannot occur",
+	"netpol/eval/internal/k8s.anpPortContains: deref of dst.GetPeerPod() [N3]":                                                                                                                                                                "same invariant as ruleConnections: the rule's peer matched dst before the ports are examined, and admin-policy peers never match IP blocks",
+	"netpol/eval.updatePeerXgressClusterWideExposure: deref of dst.GetPeerPod() [N3]":                                                                                                                                                         "called with the policy that selected dst for ingress; NetworkPolicies select only pods (getPoliciesSelectingPod returns none for an IP block)",
+	"netpol/eval.updatePeerXgressClusterWideExposure: deref of src.GetPeerPod() [N3]":                                                                                                                                                         "called with the policy that selected src for egress; NetworkPolicies select only pods",
+	"netpol/eval/internal/k8s.doesNamespacesFieldMatchPeer: deref of peer.GetPeerNamespace() [N3]":                                                                                                                                            "peer is a pod here (IP test above); namespace objects are attached by getPeer/convertPeerToPodPeer for every real pod, and representative peers (nil namespace) never meet admin policies because exposure analysis rejects admin policies at insertion",
+	"netpol/eval/internal/k8s.doesPodsFieldMatchPeer: deref of peer.GetPeerNamespace() [N3]":                                                                                                                                                  "same as doesNamespacesFieldMatchPeer",
+	"netpol/eval.(*PolicyEngine).removeRedundantRepresentativePeers: deref of pe.namespacesMap[podObj.Namespace] [N5]":                                                                                                                        "the namespace was inserted by the resolveSingleMissingNamespace call that precedes the lookup in the same function (its error is returned before)",
+	"netpol/eval.(*PolicyEngine).removeRepresentativePeersMatchingLabels: deref of netpol/eval/internal/k8s.Pod.RepresentativeNsLabelSelector [N2]":                                                                                           "entries of representativePeersMap are created only by addRepresentativePod, which stores a non-nil namespace selector (nil with an empty namespace is an error return, nil with a namespace is replaced by the name-label selector)",
+	"netpol/eval.(*evalCache).deleteWorkload: deref of netpol/eval.evalCache.cache [N2]":                                                                                                                                                      "cache is nil only when lru.New fails, which it does only for size <= 0; newEvalCacheWithSize clamps the size to [10,10000]. Not reachable by any input",
+	"netpol/internal/common.(*ConnectionSet).ReplaceNamedPortWithMatchingPortNum: deref of protocolPortSet (alias of conn.AllowedProtocols[protocol] [N5]) [N4]":                                                                              "called only from checkAndConvertNamedPortsInConnection with protocols that are keys of GetNamedPorts() of the very set the copy was made from, so the protocol is present",
+	"netpol/connlist.(*exposureMaps).appendPeerXgressExposureData: deref of ex.ingressExposureMap[peer] [N5]":                                                                                                                                 "every call is dominated by addNewEntry(peer, _, isIngress) on the same peer and direction in the calling function (checked by rule E2-N5-pre)",
+	"netpol/connlist.(*exposureMaps).appendPeerXgressExposureData: deref of ex.egressExposureMap[peer] [N5]":                                                                                                                                  "every call is dominated by addNewEntry(peer, _, isIngress) on the same peer and direction in the calling function (checked by rule E2-N5-pre)",
+	"netpol/eval.(*PolicyEngine).GetSelectedPeers: assertion peer.(*k8s.WorkloadPeer) [N7]":                                                                                                                                                   "peer ranges over the values of createPodOwnersMap, which stores only &k8s.WorkloadPeer{} (its single store, checked by rule E2-N7-store)",
+	"netpol/eval.(*PolicyEngine).allAllowedConnectionsBetweenPeers: assertion srcPeer.(k8s.Peer) [N7]":                                                                                                                                        "callers pass only *k8s.PodPeer (converted) or IP peers under IsPeerIPType (checked by rule E2-N7-callers)",
+	"netpol/eval.(*PolicyEngine).allAllowedConnectionsBetweenPeers: assertion dstPeer.(k8s.Peer) [N7]":                                                                                                                                        "callers pass only *k8s.PodPeer (converted) or IP peers under IsPeerIPType (checked by rule E2-N7-callers)",
+	"netpol/diff.(mapListConnPairs).mergeBySrcOrDstIPPeers: constant index srcOrdstIPgroup[0] [N8]":                                                                                                                                           "srcOrdstIPgroup ranges over the values of a map whose entries are created only by append of one element (diffMap.update / addConnsPair), hence non-empty",
 	"netpol/eval.(*PolicyEngine).insertWorkload: podObj (declared without initialiser and assigned only by a range loop that may not run) passed to netpol/eval.(*PolicyEngine).removeRedundantRepresentativePeers (dereferenced there) [N4]": "PodsFromWorkloadObject returns a slice of numReplicas pods and numReplicas is only ever the constant 1 or 2, so the loop runs at least once (checked by rule E2-N4-len)",
-	"netpol/connlist/internal/ingressanalyzer.(*IngressAnalyzer).getIngressPeerConnection: deref of peerTCPConn (alias of result of netpol/eval.GetPeerExposedTCPConnections (returns nil at pkg/netpol/eval/check.go:183) [N11]) [N11]": "GetPeerExposedTCPConnections returns nil only for IP peers and unknown peer types; the peers here are the values stored by mapServiceToPeers, which come from GetSelectedPeers and are *k8s.WorkloadPeer (E2-N7-store)",
-	"netpol/eval.(*PolicyEngine).getPoliciesSelectingPod: assertion peer.(*k8s.PodPeer) [N7]":           "dominated by the PeerType()==IPBlockType early return; the only non-IP implementation of k8s.Peer is *PodPeer",
+	"netpol/connlist/internal/ingressanalyzer.(*IngressAnalyzer).getIngressPeerConnection: deref of peerTCPConn (alias of result of netpol/eval.GetPeerExposedTCPConnections (returns nil at pkg/netpol/eval/check.go:183) [N11]) [N11]":      "GetPeerExposedTCPConnections returns nil only for IP peers and unknown peer types; the peers here are the values stored by mapServiceToPeers, which come from GetSelectedPeers and are *k8s.WorkloadPeer (E2-N7-store)",
+	"netpol/eval.(*PolicyEngine).getPoliciesSelectingPod: assertion peer.(*k8s.PodPeer) [N7]":                                                                                                                                                 "dominated by the PeerType()==IPBlockType early return; the only non-IP implementation of k8s.Peer is *PodPeer",
 }
 
 type nilAnalysis struct {
@@ -175,18 +175,18 @@ type nilFunc struct {
 	// locals that may hold nil: var x *T (no init), x := nil, or alias of a maybe-nil source
 	seeded map[types.Object]string
 	// v, err := f(): v -> (err object, version path of err at the definition)
-	coErr   map[types.Object]string
-	curStmt ast.Stmt
-	defs    map[types.Object]ast.Expr // single-assignment definitions of locals (for N9 validation idioms)
-	stores  map[string]bool           // m[k] = ... stores seen so far in the function (N5 store-then-use), by printed lvalue
-	okVars  map[types.Object]string   // ok variable of `v, ok := m[k]` -> printed m[k]
-	seedKind    map[types.Object]string
+	coErr    map[types.Object]string
+	curStmt  ast.Stmt
+	defs     map[types.Object]ast.Expr // single-assignment definitions of locals (for N9 validation idioms)
+	stores   map[string]bool           // m[k] = ... stores seen so far in the function (N5 store-then-use), by printed lvalue
+	okVars   map[types.Object]string   // ok variable of `v, ok := m[k]` -> printed m[k]
+	seedKind map[types.Object]string
 	// idiom `if e != nil { errVar = e; v = nil }`: v is nil only together with a non-nil errVar
 	nilImpliesErr map[types.Object]types.Object
-	guardVar    map[types.Object]types.Object // N11: bool variable that is true whenever the value is non-nil
-	rangeReseed map[*ast.RangeStmt]reseed
-	valVars map[types.Object]types.Object // value variable of the same comma-ok -> ok variable
-	coErrObjs map[types.Object]types.Object
+	guardVar      map[types.Object]types.Object // N11: bool variable that is true whenever the value is non-nil
+	rangeReseed   map[*ast.RangeStmt]reseed
+	valVars       map[types.Object]types.Object // value variable of the same comma-ok -> ok variable
+	coErrObjs     map[types.Object]types.Object
 }
 
 // correlatedNilAssignments recognises `if e != nil { errVar = e; v = nil }`.
